@@ -77,14 +77,21 @@ def one_core(ctx: RuleCtx, mod: Module, cls: str) -> T.Optional[str]:
 
 
 class _Side(ast.NodeTransformer):
+    exact: T.Set[str] = set()     # names that are a *component* themselves (loop targets): `ours.lower()` projects them
+
     def __init__(self, sides: T.Dict[str, str]):
         self.sides = sides
         self.seen: T.Set[str] = set()
+        self.exact = {k for k in sides if k.startswith('=')}
+        self.sides = {k.lstrip('='): v for k, v in sides.items()}
+        self.exact = {k.lstrip('=') for k in self.exact}
 
     def visit_Attribute(self, n: ast.Attribute) -> ast.AST:
         c = attr_chain(n)
         if c is not None:
             for k, s in self.sides.items():
+                if c.startswith(k + '.') and k in self.exact:
+                    continue
                 if c == k or c.startswith(k + '.'):
                     self.seen.add(s)
                     return ast.Name(id='@', ctx=ast.Load())
@@ -124,12 +131,12 @@ def ranking_keys(ctx: RuleCtx, mod: Module, cls: str, core: str) -> T.List[T.Tup
     for arg, tgt in zip(it.args, loop.target.elts):
         rd = names_in(arg)
         if 'self' in rd and other not in rd:
-            sides[tgt.id] = 'ours'      # type: ignore[attr-defined]
+            sides['=' + tgt.id] = 'ours'      # type: ignore[attr-defined]
         elif other in rd and 'self' not in rd:
-            sides[tgt.id] = 'theirs'    # type: ignore[attr-defined]
+            sides['=' + tgt.id] = 'theirs'    # type: ignore[attr-defined]
         else:
             raise Undecided(f'{qn}: cannot attribute zip argument {short(arg)} to one operand')
-    ctx.require({sides[t.id] for t in loop.target.elts} == {'ours', 'theirs'}, f'{qn}: loop pairs our components with theirs', mod, qn, loop.iter,  # type: ignore[attr-defined]
+    ctx.require({sides['=' + t.id] for t in loop.target.elts} == {'ours', 'theirs'}, f'{qn}: loop pairs our components with theirs', mod, qn, loop.iter,  # type: ignore[attr-defined]
                 'the component loop does not pair the two operands')
 
     def key_of(call: ast.AST, where: str) -> T.Optional[T.Tuple[str, str]]:
